@@ -23,7 +23,8 @@ query mode, cycles):
            "query everything first, then set" (thorough: also queried afterwards)
 
   same-object  ALL 2^7 subsets S x {no border, thick} x {unqueried, queried}: the ONE open subject is
-           saved three times without being reopened (queried between the saves in the queried mode);
+           saved three times without being reopened (queried between the saves in the queried mode;
+           with sizes in S and borders also with the same borders drawn again between the saves);
            every saved file is opened by the observer and G_1 == G_0, G_2 == G_1, G_3 == G_2 demanded
 
 The subset family's border configurations include the re-bordered ones (3.0 pt then 0.35 pt and
@@ -508,6 +509,13 @@ def eval_case(case, info=None):
             if case.get("same"):
                 # the SAME open subject is saved again (state kept across saves: caches of stored sizes,
                 # buckets rewritten by the save); with q != none it is also read between the saves
+                if case.get("reborder"):
+                    # the same borders are drawn again on the affected rows / columns of the open subject: the
+                    # library drops its in-memory sizes for them and falls back to what it believes is stored
+                    bcase = {"border": case.get("border", "none")}
+                    for i, (s_, t_) in enumerate((s_, t_) for s_ in subj.sheets for t_ in s_.tables):
+                        if i == 0:
+                            apply_mods(subj, s_, t_, bcase)
                 if q != "none":
                     geo(subj)
                     written = {i: None for i in range(len(g_new))}
@@ -574,6 +582,9 @@ def gen_cases(tier, seed):
             for q in ("none", "all"):
                 yield {"kind": "fresh", "family": "same-object", "shape": [6, 6], "S": mask, "vals": rot_vals(mask, 1, seed), "border": border, "q": q,
                        "cycles": 3, "same": True}
+                if border != "none" and mask & 3:
+                    yield {"kind": "fresh", "family": "same-object", "shape": [6, 6], "S": mask, "vals": rot_vals(mask, 1, seed), "border": border, "q": q,
+                           "cycles": 3, "same": True, "reborder": True}
     # values family: every value of every alphabet as a singleton S
     for bit, a in enumerate(ATTRS):
         al = [[r, c] for r in range(6) for c in range(6)] if a == "headers" else ALPHABET[a]
